@@ -59,7 +59,12 @@ ParseXml(fn, ek, pre) == \* fn:parse-xml / fn:parse-xml-fragment with defuse_xml
   /\ last' = [kind |-> "parse", allow |-> FALSE, ek |-> ek]
   /\ UNCHANGED <<env, dctx>>
 
-Decimal(op) ==           \* xs:decimal arithmetic, rounding, casts
+DefaultCollation ==      \* fn:default-collation() of a parser built with default settings in a C-locale
+  /\ res' = <<"codepoint">>   \* process: LC_ALL / LC_COLLATE / LANG of the environment are not consulted
+  /\ last' = [kind |-> "defcoll", allow |-> FALSE, ek |-> "none"]
+  /\ UNCHANGED <<env, dctx>>
+
+Decimal(op) ==           \* xs:decimal arithmetic, rounding, casts, fn:format-number of huge values
   /\ res' = <<"any">>
   /\ last' = [kind |-> "decimal", allow |-> FALSE, ek |-> "none"]
   /\ UNCHANGED <<env, dctx>>
@@ -70,6 +75,7 @@ Next == \/ \E n \in Names : SetVar(n)
         \/ \E a \in BOOLEAN : AvailVars(a)
         \/ \E fn \in {"parse-xml", "parse-xml-fragment"}, ek \in EntKinds, pre \in Prefixes : ParseXml(fn, ek, pre)
         \/ \E op \in Ops : Decimal(op)
+        \/ DefaultCollation
 
 Spec == Init /\ [][Next]_vars
 
@@ -84,6 +90,8 @@ NonInterference ==
   \A e1 \in SUBSET Names, e2 \in SUBSET Names :
      /\ AvailRes(FALSE, e1) = AvailRes(FALSE, e2)
      /\ \A n \in Names : EnvVarRes(n, FALSE, e1) = EnvVarRes(n, FALSE, e2)
+(* the static default collation does not depend on the environment either             *)
+CollationBlind == last.kind = "defcoll" => res = <<"codepoint">>
 (* and when it is allowed the answer is exactly the environment                       *)
 AllowedIsExact == (last.kind = "avail" /\ last.allow) => res = <<"names", env>>
 (* an entity-declaring text is never turned into a document *)
